@@ -105,6 +105,10 @@ func (propC17) Gen(seed uint64, ex map[string]bool) interface{} {
 	}
 	variant(reFilterName, func(m []string) string { return "|nosuch_" + m[1] })
 	variant(reFuncName, func(m []string) string { return "nosuch_" + m[1] + "(" })
+	if r.P(50) && !strings.Contains(main, "{% extends") {
+		// an unknown function directly under `default` / `length` (top level of a non-inheriting template)
+		sc.Unknown = append(sc.Unknown, main+"{{ nosuch_fn(1)|"+pick(r, []string{"default('d')", "length", "default('d')|upper"})+" }}")
+	}
 	variant(reTestName, func(m []string) string { return "is nosuch_" + m[1] })
 	variant(reInclude, func(m []string) string { return "{% " + m[1] + " 'nosuch/" + m[2] + "'" })
 	return sc
